@@ -762,7 +762,7 @@ class PlSqlDialect(AnsiSqlDialect):
         elif ansi_type == "int":
             length = sql_ansi_type[1]
             if (length is not None) and (length > MAX_INTEGER):
-                result = ("number", length, 0)
+                result = ("number", sql_ansi_type[2], 0)
 
         return result
 
@@ -982,7 +982,7 @@ class TransactSqlDialect(AnsiSqlDialect):
             elif limit <= MAX_BIGINT:
                 result = ("bigint", limit)
             else:
-                result = ("decimal", limit, 0)
+                result = ("decimal", sql_ansi_type[2], 0)
         else:
             result = sql_ansi_type
 
@@ -1307,7 +1307,7 @@ class Db2SqlDialect(AnsiSqlDialect):
             elif length <= MAX_BIGINT:
                 result = ("bigint", length)
             else:
-                result = ("decimal", length)
+                result = ("decimal", sql_ansi_type[2])
         return result
 
     def __str__(self):
@@ -1354,7 +1354,7 @@ def assert_is_valid_ansi_type(ansi_type):
     elif type_name == "decimal":
         assert tuple_count <= 3
     elif type_name == "int":
-        assert tuple_count <= 2
+        assert tuple_count <= 3
     else:
         assert False, "ansi_type.name=%r but must be one of %s" % (type_name, _VALID_ANSI_TYPE_NAMES)
     for ansi_type_index, ansi_type_item in enumerate(ansi_type_items[1:], 1):
